@@ -15,6 +15,7 @@ settings) gives every function name of bioscrape's expression language (exp, log
 grammar (unary minus vs ^, associativity of ^) the meaning bioscrape's own parser gives it.
 R14.4 modifiers: every species a Hill/general law mentions that is neither reactant nor product
 is declared as a modifier of the reaction.
+R14.7 parameter values: the value written for a parameter is the model's value, unchanged (shared with C12 R12.3).
 """
 import ast
 import re
